@@ -42,6 +42,21 @@ static void stream_index(stream_t *s){
 static int64_t bound_before(const stream_t *s,int64_t p){ /* largest boundary strictly before p, else 0 */
   int64_t b=0; for(int i=0;i<s->nb;i++){ if(s->bounds[i]<p) b=s->bounds[i]; else break; } return b;
 }
+/* does the page whose granule position defines boundary b hold nothing but the tail of a packet begun on an earlier page?
+   (vorbisfile cannot start decoding on such a page and falls back to an earlier one) */
+static int bound_is_continued_tail(const stream_t *s,int64_t b){
+  for(int l=0;l<s->ref.nlinks;l++){
+    const reflink_t *L=&s->ref.l[l];
+    for(int i=0;i<s->npages;i++){
+      const pageinfo_t *p=&s->pages[i];
+      if((long)p->serial!=L->serial || p->granule<0) continue;
+      if(p->off<(long)s->linkoff[l] || p->off>=(long)s->linkoff[l+1]) continue;
+      int64_t g=p->granule; if(g>L->len)g=L->len;
+      if(L->start+g==b && p->continued && p->packets<=1) return 1;
+    }
+  }
+  return 0;
+}
 static void stream_free(stream_t *s){ ref_free(&s->ref); free(s->pages); free(s->bounds); free(s->pagestart); }
 
 /* last link whose start <= pos */
@@ -192,7 +207,7 @@ static void do_seek(OggVorbis_File *vf,const stream_t *s,rng_t *r,int api,int pr
   }else if(api==2){
     int64_t B=bound_before(s,p);
     if(T>p) res_viol("C08","page-seek-lands-after-target","%s tell %lld",ctx,(long long)T);
-    else if(T<B) res_viol("C08","page-seek-lands-before-previous-page-boundary","%s tell %lld boundary %lld",ctx,(long long)T,(long long)B);
+    else if(T<B) res_viol("C08",bound_is_continued_tail(s,B)?"page-seek-lands-before-previous-page-boundary:boundary-page-holds-only-the-tail-of-a-continued-packet":"page-seek-lands-before-previous-page-boundary","%s tell %lld boundary %lld",ctx,(long long)T,(long long)B);
   }else if(api==3){
     int ok=(llabs(T-expect)<=1);
     if(!ok && explink>0){ /* t within rounding of a link boundary: previous link's arithmetic is equally valid */
@@ -201,7 +216,7 @@ static void do_seek(OggVorbis_File *vf,const stream_t *s,rng_t *r,int api,int pr
   }else if(api==4){
     int64_t B=bound_before(s,expect-1);
     if(T>expect+1) res_viol("C08","time-page-seek-lands-after-target","%s tell %lld expected<=%lld",ctx,(long long)T,(long long)expect);
-    else if(T<B) res_viol("C08","time-page-seek-lands-before-previous-page-boundary","%s tell %lld boundary %lld",ctx,(long long)T,(long long)B);
+    else if(T<B) res_viol("C08",bound_is_continued_tail(s,B)?"page-seek-lands-before-previous-page-boundary:boundary-page-holds-only-the-tail-of-a-continued-packet":"time-page-seek-lands-before-previous-page-boundary","%s tell %lld boundary %lld",ctx,(long long)T,(long long)B);
   }
   if(api==1 && p==L){
     float **pcm; int bs; long g=ov_read_float(vf,&pcm,64,&bs);
@@ -229,8 +244,8 @@ static void run_case(const drvargs_t *a,long id){
   char desc[700];
   res_begin(id);
   long maxN = exhaustive ? (a->thorough?6000:2500) : (a->thorough?60000:24000);
-  gen_chain(&r, exhaustive?3:(a->thorough?8:5), maxN, GC_ALLOW_EMPTY|GC_MULTICH|GC_MANAGED, &cd);
-  if(exhaustive) for(int i=0;i<cd.nlinks;i++){ if(cd.cfg[i].channels>2) cd.cfg[i].channels=2; }
+  gen_chain(&r, exhaustive?3:(a->thorough?8:5), maxN, GC_ALLOW_EMPTY|GC_MULTICH|GC_MANAGED|GC_BIGPAGES, &cd);
+  if(exhaustive) for(int i=0;i<cd.nlinks;i++){ if(cd.cfg[i].channels>2 && cd.cfg[i].channels<=8) cd.cfg[i].channels=2; }
   chain_describe(&cd,desc,sizeof desc);
   if(build_chain(&cd,&phys,s.linkoff)){ res_sample("encoder setup refused: %s",desc); res_end(); buf_free(&phys); return; }
   vh_dump("stream.ogg",phys.p,phys.n);
@@ -252,19 +267,20 @@ static void run_case(const drvargs_t *a,long id){
   int64_t L=s.ref.total;
   if(exhaustive){
     char ctx[96];
-    for(int64_t p=0;p<=L;p++){
+    int stride=1; for(int i=0;i<cd.nlinks;i++) if(cd.cfg[i].channels>8) stride=7;   /* many-channel decode is slow: sample the targets */
+    for(int64_t p=(stride>1?(int64_t)(id%7):0);p<=L;p+=stride){
       int rc=ov_pcm_seek(&vf,p); int64_t T=ov_pcm_tell(&vf); res_eval(1);
       snprintf(ctx,sizeof ctx,"exhaustive pcm_seek(%lld)",(long long)p);
       if(rc){ res_viol("C08","in-range-seek-failed","%s returned %d",ctx,rc); break; }
       if(T!=p){ res_viol("C08",T>p?"pcm_seek-lands-after-target":"pcm_seek-lands-before-target","%s tell %lld (link %d)",ctx,(long long)T,link_at(&s,p)); break; }
-      if((p&3)==0 && verify_reads(&vf,&s,&r,1,ctx,0)) break;
-      if((p%5)==0){
+      if(((p&3)==0||stride>1) && verify_reads(&vf,&s,&r,1,ctx,0)) break;
+      if((p%5)==0||stride>1){
         rc=ov_pcm_seek_page(&vf,p); T=ov_pcm_tell(&vf); res_eval(1);
         int64_t B=bound_before(&s,p);
         snprintf(ctx,sizeof ctx,"exhaustive pcm_seek_page(%lld)",(long long)p);
         if(rc){ res_viol("C08","in-range-seek-failed","%s returned %d",ctx,rc); break; }
         if(T>p){ res_viol("C08","page-seek-lands-after-target","%s tell %lld",ctx,(long long)T); break; }
-        if(T<B){ res_viol("C08","page-seek-lands-before-previous-page-boundary","%s tell %lld boundary %lld",ctx,(long long)T,(long long)B); break; }
+        if(T<B){ int ct=bound_is_continued_tail(&s,B); res_viol("C08",ct?"page-seek-lands-before-previous-page-boundary:boundary-page-holds-only-the-tail-of-a-continued-packet":"page-seek-lands-before-previous-page-boundary","%s tell %lld boundary %lld",ctx,(long long)T,(long long)B); if(!ct) break; }
         if(verify_reads(&vf,&s,&r,1,ctx,0)) break;
       }
     }
